@@ -155,15 +155,22 @@ class Ctx:
             self._cg = CallGraph(self.fx)
         return self._cg
 
-    def region(self, path, depth=None, policy=None):
-        from .cg import region_body
+    def region(self, path, depth=None, policy=None, ps=False, key=None):
+        """REGION super-graph of a function (by def path, or by key): private local callees inlined.
+        policy: None (every non-public plain fn) | "private" (module-private only)."""
+        from .cg import region_of_key, private_only_policy
         depth = depth or (8 if self.tier == "thorough" else 4)
-        k = (path, depth, id(policy))
+        if key is None:
+            key = self.fx.fn(path)["key"]
+        k = (key, depth, policy)
         if k not in self._regions:
-            self._regions[k] = region_body(self.fx, path, depth, policy)
-            b = self._regions[k]
-            self.touch_body(b)
-        return self._regions[k]
+            pol = private_only_policy(self.fx) if policy == "private" else None
+            self._regions[k] = region_of_key(self.fx, key, depth, pol)
+            self.touch_body(self._regions[k])
+        b = self._regions[k]
+        if ps and not b.ps:
+            b.enable_path_sensitivity()
+        return b
 
     def touch_body(self, body):
         for i in body.reach:
@@ -194,6 +201,41 @@ class Ctx:
         self.notes.append(s)
 
 
+def mutant_self_test(prop):
+    """Apply every registered seeded / reverse-fix patch of this property to a scratch copy of the current tree and
+    record whether this property's check fires.  Informational: the verdict is only ever about /repo's tree."""
+    import concurrent.futures
+    out = {"caught": [], "missed": [], "inapplicable": []}
+    ids = []
+    for base in ("seeded", "mutants"):
+        d = os.path.join(VERIF, base)
+        if not os.path.isdir(d):
+            continue
+        for sid in sorted(os.listdir(d)):
+            mp = os.path.join(d, sid, "meta.json")
+            if os.path.exists(mp):
+                try:
+                    if json.load(open(mp)).get("property") == prop:
+                        ids.append(sid)
+                except ValueError:
+                    pass
+    def one(sid):
+        r = sh([os.path.join(VERIF, "bin", "seedrun"), sid, "--props", prop, "-j", "1"])
+        line = [l for l in r.stdout.splitlines() if l.startswith(sid)]
+        return sid, (line[0] if line else r.stdout[-200:])
+    with concurrent.futures.ThreadPoolExecutor(max_workers=8) as ex:
+        for sid, line in ex.map(one, ids):
+            if "CAUGHT" in line:
+                out["caught"].append({"id": sid, "rules": line.split(" by ", 1)[-1].strip()})
+            elif "ERROR" in line:
+                out["inapplicable"].append({"id": sid, "why": line[:200]})
+            else:
+                out["missed"].append({"id": sid})
+    out["summary"] = "%d caught, %d missed, %d inapplicable of %d registered mutations of this property" % (
+        len(out["caught"]), len(out["missed"]), len(out["inapplicable"]), len(ids))
+    return out
+
+
 def slug(s):
     return re.sub(r"[^A-Za-z0-9_.-]+", "_", s)[:120]
 
@@ -206,30 +248,10 @@ def load_known():
         return json.load(fh)
 
 
-def run_property(prop, tier="quick", replay=None, repo=None, quiet=False, write_evidence=True):
-    t0 = time.time()
-    mod = importlib.import_module("itv.rules." + prop)
-    fx, info = extract_facts(repo)
-    ctx = Ctx(fx, tier, info)
-    p = (lambda *a: None) if quiet else (lambda *a: print(*a))
-    p("itv: property %s tier=%s repo=%s tree=%s facts=%s (%d bodies, %d ADTs, %d impls)" % (
-        prop, tier, info["repo"], info["tree_hash"], "cached" if info["cached"] else "extracted in %ss" % info.get("extract_s"),
-        info["fns"], info["adts"], info["impls"]))
-    try:
-        mod.run(ctx)
-    except Exception as e:  # a crashing rule must not pass
-        import traceback
-        traceback.print_exc()
-        ctx.bad(prop + "/engine", "rule engine crashed", "exception %r - failing closed" % (e,))
-    if tier == "thorough" and hasattr(mod, "run_thorough"):
-        try:
-            mod.run_thorough(ctx)
-        except Exception as e:
-            import traceback
-            traceback.print_exc()
-            ctx.bad(prop + "/engine", "thorough rule engine crashed", "exception %r - failing closed" % (e,))
-    # floors: a rule that matches fewer instances than were counted by hand fails closed
+def _apply_floors(mod, ctx):
     floors = getattr(mod, "FLOORS", {})
+    if ctx.info.get("profile") == "release":
+        floors = getattr(mod, "FLOORS_RELEASE", floors)
     counts = {}
     for i in ctx.instances:
         counts[i["rule"]] = counts.get(i["rule"], 0) + 1
@@ -239,6 +261,53 @@ def run_property(prop, tier="quick", replay=None, repo=None, quiet=False, write_
             ctx.bad(rule, "floor", "rule matched %d instance(s), floor is %d - the rule has lost its anchors (failing closed)" % (n, fl))
         else:
             ctx.ok(rule + "#floor", "floor", "%d instance(s) >= floor %d" % (n, fl))
+    return floors, counts
+
+
+def _run_rules(mod, prop, fx, tier, info):
+    ctx = Ctx(fx, tier, info)
+    try:
+        mod.run(ctx)
+    except Exception as e:  # a crashing rule must not pass
+        import traceback
+        traceback.print_exc()
+        ctx.bad(prop + "/engine", "rule engine crashed", "exception %r - failing closed" % (e,))
+    floors, counts = _apply_floors(mod, ctx)
+    return ctx, floors, counts
+
+
+def run_property(prop, tier="quick", replay=None, repo=None, quiet=False, write_evidence=True):
+    t0 = time.time()
+    mod = importlib.import_module("itv.rules." + prop)
+    fx, info = extract_facts(repo)
+    p = (lambda *a: None) if quiet else (lambda *a: print(*a))
+    p("itv: property %s tier=%s repo=%s tree=%s facts=%s (%d bodies, %d ADTs, %d impls)" % (
+        prop, tier, info["repo"], info["tree_hash"], "cached" if info["cached"] else "extracted in %ss" % info.get("extract_s"),
+        info["fns"], info["adts"], info["impls"]))
+    ctx, floors, counts = _run_rules(mod, prop, fx, tier, info)
+    thorough = {}
+    if tier == "thorough" and replay is None:
+        # (a) the same rules on the release configuration (no debug assertions / overflow checks): no verdict may rest on debug-only MIR
+        fx2, info2 = extract_facts(repo, profile="release")
+        ctx2, floors2, counts2 = _run_rules(mod, prop, fx2, tier, info2)
+        for i in ctx2.instances:
+            j = dict(i)
+            j["key"] = i["key"] + " [release profile]"
+            ctx.instances.append(j)
+        ctx.notes += ["[release] " + n for n in ctx2.notes]
+        thorough["release_profile"] = {"tree_hash": info2["tree_hash"], "obligations": len(ctx2.instances),
+                                       "discharged": sum(1 for i in ctx2.instances if i["ok"]), "mir_bodies": info2["fns"]}
+        fx, info = extract_facts(repo)      # restore the registry of promoted constants for the dev facts
+        # (b) extractor cross-check and (c) mutant self-test are supplied by the optional hooks below
+        if hasattr(mod, "run_thorough"):
+            try:
+                mod.run_thorough(ctx)
+            except Exception as e:
+                import traceback
+                traceback.print_exc()
+                ctx.bad(prop + "/engine", "thorough rule engine crashed", "exception %r - failing closed" % (e,))
+        if repo is None and not os.environ.get("ITV_NO_SELFTEST"):
+            thorough["mutant_self_test"] = mutant_self_test(prop)
     known = load_known()
     known_keys = {(k["property"], k["rule"], k["key"]): k for k in known.get("findings", [])}
     violations = []
@@ -310,6 +379,8 @@ def run_property(prop, tier="quick", replay=None, repo=None, quiet=False, write_
             "wall_s": wall,
             "violations": len(violations),
         }
+        if thorough:
+            ev["coverage"]["thorough"] = thorough
         if hasattr(ctx, "extra_coverage"):
             ev["coverage"].update(ctx.extra_coverage)
         with open(os.path.join(VERIF, "evidence", prop + ".json"), "w") as fh:
